@@ -59,6 +59,13 @@ let do_item s it =
   | L [A "ord"; t; o] ->
     let t = tid_of t in let o = list_of nat_of o in let s = advance s t in
     let (s', g) = apply s (LOrd (t, o)) in expect g [GOrd (t, o)]; s'
+  | L [A "ordprefix"; t; o] ->
+    (* iteration order known only as far as the loop got: complete it with the remaining emitters *)
+    let t = tid_of t in let o = list_of nat_of o in let s = advance s t in
+    let o' = o @ Stdlib.List.filter (fun e -> not (Stdlib.List.mem e o)) (emitters s) in
+    let (s', g) = apply s (LOrd (t, o')) in
+    if g <> [GOrd (t, o')] && g <> [] then raise (Mismatch ("observation", ""));
+    s'
   | L [A "emstart"; t; e; a] ->
     let t = tid_of t in let s = advance s t in
     let (s', g) = apply s (LStep t) in expect g [GEmStart (t, nat_of e, bool_of a)]; s'
@@ -97,8 +104,8 @@ let do_item s it =
   | _ -> failwith "observer: bad item"
 
 let run = function
-  | L (A "replay" :: items) ->
-    let s = ref init and i = ref 0 and dl = ref 0 in
+  | L (A "replay" :: fx :: items) ->
+    let s = ref (init_of (bool_of fx)) and i = ref 0 and dl = ref 0 in
     (try
        Stdlib.List.iter (fun it ->
            (try s := do_item !s it
